@@ -18,6 +18,10 @@ CLAIMED = {
          "bounds: n <= 1024 (100000 thorough) for the ratio; 3..5 arbiters and 5 votes for the confirm check; signature verification (ConfirmSanityCheck) not encoded"),
  "C26": ("4 C26", "ChangeView / ChangeViewV1 evaluated once versus three times at arbitrary intermediate instants (millisecond-granular symbolic times): same offset and remainder, offsets monotone. One genuine defect (first-slot formula beyond a full round) is a recorded known finding.",
          "bounds: window 90 s / 60 s, 1..6 arbiters, tolerance enumerated (V0) or 1..10 s symbolic (V1); math.Pow evaluated on enumerated integer arguments; V2 schedule not encoded"),
+ "C31": ("4 C31", "checkTransactionCrossChainUTXO decided for every transaction-type byte (all values GetTransaction accepts give the real transaction object), every payload-version byte, 0..3 referenced outputs with arbitrary prefix bytes and all uint32 heights with freeze <= restriction: verdict equals the policy table written from the statement with literal protocol values. enforceCrossChainUTXORestrictionHeights for every ASCII ActiveNet string of 0..8 bytes and arbitrary local heights: mainnet names give the two constants, every other name gives MaxUint32.",
+         "bounds: <= 3 references; ActiveNet <= 8 ASCII bytes (non-ASCII names are unsupported by the ToLower model and excluded by assumption); the call site in DefaultChecker.ContextCheck (argument order) and the viper/JSON loading path of SetupConfig are not encoded"),
+ "C32": ("4 C32", "checkFrozenAddresses on 0..2 frozen entries (resolved or unresolved hash, symbolic start height), 0..2 referenced and 0..2 created outputs with fully symbolic 21-byte program hashes: accepted <=> no active entry equals any touched hash, in either position. enforceFrozenAddresses: for every mainnet spelling the list becomes the single coordinated entry whatever the local list was.",
+         "bounds: <= 2 entries / 2 references / 2 outputs; the coinbase exemption (ContextCheck is not run for coinbase) and address-string resolution in Sterilize (base58) are not encoded"),
 }
 
 # thorough tier (deeper bounds + every unsat cross-checked with z3 5.1.0) is
@@ -48,8 +52,6 @@ NA = {
  "C28": "history property over State; check-arithmetic kernel not built in this session",
  "C29": "history property over proposal manager; not built in this session",
  "C30": "needs BlockChain.ReorganizeChain against a database-backed chain: not encodable; IsIrreversible kernel not built",
- "C31": "checkTransactionCrossChainUTXO needs the transaction-with-references context; not built in this session",
- "C32": "checkFrozenAddresses: not built in this session",
  "C33": "Schnorr aggregate verification is elliptic-curve arithmetic (see C05); single-use half is a history property; not built",
  "C34": "mempool structures are map/slice heaps driven by histories; not built in this session",
  "C35": "Header.Serialize/Deserialize go through encoding/binary on a struct (reflection), which the engine cannot encode; checksum is SHA-256",
